@@ -1,12 +1,13 @@
 #!/usr/bin/env bash
-# usage: tools/seed_queue.sh C06[:C06,C11] C09 ...   (sequential; results appended to /tmp/seedres-all.txt)
-# each argument is <seed property>[:<comma separated checks to run>] (default: the seed's own property)
+# usage: [SEED_ROOT=/tmp/seed-] [LETTERS="a b"] [OUT=/tmp/seedres-all.txt] tools/seed_queue.sh C06[:C06,C11] C09 ...
+# each argument is <seed property>[:<comma separated checks to run>] (default: the seed's own property); sequential
+ROOT="${SEED_ROOT:-/tmp/seed-}"; LET="${LETTERS:-a b}"; OUT="${OUT:-/tmp/seedres-all.txt}"
 for A in "$@"; do
   P="${A%%:*}"; C="${A#*:}"; [ "$C" = "$A" ] && C="$P"
-  for s in a b; do
-    d=/tmp/seed-$P/_seed/$s
-    [ -f "$d/patch.diff" ] || { echo "RESULT $P-$s: no patch" >> /tmp/seedres-all.txt; continue; }
-    "$(dirname "$0")/verify_seed.sh" "$d" "$C" "$P-$s" >> /tmp/seedres-all.txt 2>&1
+  for s in $LET; do
+    d="$ROOT$P/_seed/$s"
+    [ -f "$d/patch.diff" ] || { echo "RESULT $P-$s: no patch" >> "$OUT"; continue; }
+    /verif/tools/verify_seed.sh "$d" "$C" "$P-$s" >> "$OUT" 2>&1
   done
 done
-echo "QUEUE-DONE $*" >> /tmp/seedres-all.txt
+echo "QUEUE-DONE $*" >> "$OUT"
